@@ -307,4 +307,13 @@ theorem batch_queue_and_sleep_watch_call_contexts_in_source :
     GV.Gen.Exits.sendBatchWaitContexts =
       ["QueueBatch:contextOfCalls(ctx, rpcs)", "sleepAndIncreaseBackoff:contextOfCalls(ctx, retries)"] := by decide
 
+/-- Regenerated from admin_client.go (`checkProcedureWithBackoff`, the wait behind CreateTable,
+DeleteTable, EnableTable and DisableTable): the procedure-state poll and the sleep between two
+polls both run under the context of the admin call itself, and the loop makes no context of its
+own (a poll under a fresh context is not ended by the caller's cancellation: observed as
+`cancel-ignored-admin-poll-silent-*` on a seeded change). -/
+theorem procedure_polls_watch_caller_context_in_source :
+    GV.Gen.Exits.procedurePollContexts = ["NewGetProcedureState:ctx", "sleepAndIncreaseBackoff:ctx"] := by
+  decide
+
 end GV.Cancel
